@@ -409,6 +409,16 @@ def build(unit, out_dir, twin=False):
     # clause ids
     n = 0
     for fs in unit.fns:
+        if 'inherit' in fs.opts:
+            # loop invariants of this function carry the same properties as its post-conditions
+            tags = []
+            for c in fs.ensures:
+                for t in (c.tag or '').split(','):
+                    if t and t not in tags: tags.append(t)
+            if tags:
+                for l in fs.loops:
+                    for c in l.invariants + l.ensures + l.except_break:
+                        if not c.tag: c.tag = ','.join(tags)
         allc = fs.requires + fs.ensures + [c for l in fs.loops for c in l.invariants + l.ensures + l.except_break] + getattr(fs, 'tagged_proofs', [])
         for c in allc:
             n += 1
